@@ -15,6 +15,7 @@ COMPONENTS = {
     "mul": dict(driver_mode="mul", targets=[("multi", "multi.cpp", "")]),
     "capi": dict(driver_mode="capi", targets=[("capi", "capi.cpp", R.REPO + "/c-interface/cpgm.cpp")]),
 }
+COMPONENTS["thr"] = dict(driver_mode="thr", targets=[("threads", "threads.cpp", "-lpthread")])
 # composite component: every harness reads the same case file and answers only the kinds it knows
 COMPONENTS["all"] = dict(driver_mode="all", targets=[t for k in ("idx", "dyn", "var", "map", "mul", "capi") for t in COMPONENTS[k]["targets"]])
 
@@ -66,6 +67,8 @@ PROPS = {
              nontrivial=lambda line: True),
     "C17": P(comp="all", gen=lambda t, s: gens.gen_all(t, s, 0.25 if t == "quick" else 1.0), judges=["C17"], san=True,
              kinds=("IDX", "SEG", "BKT", "EFI", "MAP", "CIX", "CDY", "MUL", "DYN", "PLA"), nontrivial=lambda line: True),
+    "C16": P(comp="thr", gen=lambda t, s: gens.gen_thr(t, s), judges=["C16"], kinds=("THR",), san=True, cxx="clang++",
+             flags="-std=c++17 -O1 -g -DNDEBUG -march=native -w -fsanitize=thread", nontrivial=lambda line: True),
     "C03": P(comp="idx", gen=lambda t, s: gens.gen_seg(t, s), judges=["C03"], kinds=("SEG",),
              nontrivial=lambda line: len(line.split("|")[1].split()) >= 3),
     "C04": P(comp="idx", gen=lambda t, s: gens.gen_seg(t, s + 5), judges=["C04"], kinds=("SEG",),
@@ -147,8 +150,7 @@ def check(pid, tier, seed, args, t0):
     with R.Lock("coq"):
         tmsgs = R.translate()
         pr = R.prove(pid) if not args.no_prove else dict(obligations=1, discharged=1, failed=[], assumptions={}, bad_axioms=[], log="")
-        model_ok = os.path.exists(os.path.join(R.COQ, "Extract.vo")) and os.path.getmtime(os.path.join(R.COQ, "Extract.vo")) >= max(
-            os.path.getmtime(os.path.join(R.COQ, f)) for f in os.listdir(R.COQ) if f.endswith("Model.v") or f.startswith("Gen") and f.endswith(".v"))
+        model_ok = os.path.exists(os.path.join(R.COQ, "Extract.vo"))     # make's status (in prove) tells whether it is current
         driver = R.build_driver() if os.path.exists(os.path.join(R.COQ, "model.ml")) else None
     broken = []
     if lint_bad: broken.append("lint: " + "; ".join(lint_bad[:5]))
@@ -159,7 +161,7 @@ def check(pid, tier, seed, args, t0):
     if not model_ok: broken.append("the model no longer compiles against the regenerated Gen*.v (Extract.vo stale)")
 
     # 4 harness
-    exes, blog = R.build_harness(comp["targets"], san=bool(spec.get("san")), flags=spec.get("flags"))
+    exes, blog = R.build_harness(comp["targets"], san=bool(spec.get("san")), flags=spec.get("flags"), cxx=spec.get("cxx", "g++"))
     if blog:
         # the repository no longer compiles with the harness: nothing can be executed
         print(blog[-2000:])
@@ -169,7 +171,7 @@ def check(pid, tier, seed, args, t0):
         write_evidence(pid, tier, seed, pr, 0, 0, {}, [], ["harness build failed"], 1, t0, spec, broken)
         return 1
     exelist = [exes[t[0]] for t in comp["targets"]]
-    env = probe_env(exelist[0])
+    env = probe_env(exelist[0]) if spec.get("comp") != "thr" else dict(conv="avx512")
     if spec.get("san"):
         e2 = dict(os.environ); e2["ASAN_OPTIONS"] = "detect_leaks=0:abort_on_error=0"; e2["UBSAN_OPTIONS"] = "print_stacktrace=1"
         e2["TSAN_OPTIONS"] = "halt_on_error=1"; env["env"] = e2
